@@ -103,6 +103,7 @@ func cmdCheck(args []string) int {
 	work := fs.String("work", "", "scratch dir for SMT files")
 	only := fs.String("only", "", "restrict to functions whose key contains this")
 	verbose := fs.Bool("v", false, "")
+	upd := fs.Bool("update-baseline", false, "record the discharged obligations of this run as the baseline of the property")
 	fs.Parse(args)
 	t0 := time.Now()
 	if *work == "" {
@@ -115,7 +116,7 @@ func cmdCheck(args []string) int {
 		fmt.Fprintln(os.Stderr, "ENGINE-ERROR:", err)
 		return 2
 	}
-	run := &CheckRun{P: P, Prop: *prop, Tier: *tier, Work: *work, Verif: *verif, Verbose: *verbose, Only: *only, T0: t0}
+	run := &CheckRun{P: P, Prop: *prop, Tier: *tier, Work: *work, Verif: *verif, Verbose: *verbose, Only: *only, T0: t0, UpdateBaseline: *upd}
 	return run.Run()
 }
 
@@ -128,6 +129,7 @@ type CheckRun struct {
 	Verbose bool
 	Only    string
 	T0      time.Time
+	UpdateBaseline bool
 }
 
 // propFuncs selects the functions whose contracts carry a clause labelled for the property.
@@ -467,6 +469,20 @@ func (r *CheckRun) report(aggs []*AggObl, freports []FuncReport, vacuity []strin
 	}
 	for _, l := range lines {
 		fmt.Println(l)
+	}
+	if r.UpdateBaseline && r.Only == "" {
+		var names []string
+		for _, a := range aggs {
+			if a.Status == "discharged" {
+				names = append(names, a.Func+" "+a.Name)
+			}
+		}
+		sort.Strings(names)
+		baseline[r.Prop] = names
+		b, _ := json.MarshalIndent(baseline, "", " ")
+		os.MkdirAll(filepath.Join(r.Verif, "baseline"), 0o755)
+		os.WriteFile(filepath.Join(r.Verif, "baseline", "obligations.json"), b, 0o644)
+		fmt.Printf("baseline for %s updated: %d obligations\n", r.Prop, len(names))
 	}
 	r.writeEvidence(total, discharged, violations, samples, oblJSON, freports, knownPrinted)
 	fmt.Printf("gocv: property %s tier %s: %d obligations, %d discharged, %d known findings, %d violations, %.1fs\n", r.Prop, r.Tier, total, discharged, len(knownPrinted), violations, time.Since(r.T0).Seconds())
